@@ -152,7 +152,7 @@ Lemma panic_contained_proof : forall (q : reqinfo) (stack : bytes) (next : handl
       if carries_abort v
       then recovery_mw q stack next w log = (Panicked v, w', log)
       else exists w'',
-          recovery_mw q stack next w log = (Returned, w'', log ++ [record q v stack]) /\
+          recovery_mw q stack next w log = (Returned, w'', logged q v stack log) /\
           (written w' = true -> w'' = w') /\
           (written w' = false -> reports_broken_connection v = true -> w'' = w') /\
           (written w' = false -> reports_broken_connection v = false -> w'' = handle500 w')
@@ -181,7 +181,7 @@ Definition observe (q : reqinfo) (stack : bytes) (acts : list action) (v : pval)
   | (r, w, log) =>
       {| o_escaped := match r with Panicked _ => Some vid | Returned => None end;
          o_pre_started := u_wrote pre; o_untouched := under_eqb pre w;
-         o_wrote := u_wrote w; o_status := u_status w; o_body := u_body w; o_records := log;
+         o_wrote := u_wrote w; o_status := u_status w; o_body := u_body w; o_records := log; o_records_visible := true;
          o_followup_ok := true; o_write_ok := true; o_routes_same := true |}
   end.
 
@@ -194,7 +194,7 @@ Proof. unfold under_eqb. rewrite Bool.eqb_reflx, Z.eqb_refl, bytes_eqb_refl. ref
 Lemma model_meets_spec_response_proof : forall q stack acts v vid,
   let o := observe q stack acts v vid in
   contained_ok v vid o = true /\ response_ok v o = true /\
-  (carries_abort v = false -> o_records o = [record q v stack]).
+  (carries_abort v = false -> o_records o = logged q v stack []).
 Proof.
   intros q stack acts v vid. unfold observe.
   pose proof (panic_contained_proof q stack (run_actions acts (Some v)) w_reset []) as PC.
@@ -328,4 +328,5 @@ Definition ex_broken : pval :=
 Definition ex_abort : pval := PErr (EWrap (S2B "w") (EJoin [ELeaf (S2B "x"); EOp (S2B "read") EAbort])).
 Definition ex_q : reqinfo :=
   Q RouteHandler (S2B "/r/{id}") true [(S2B "id", S2B "1")]
-    (render (S2B "GET /r/1 HTTP/1.1") [(S2B "Host", S2B "h"); (S2B "x-csrf-TOKEN", S2B "secret"); (S2B "Accept", S2B "*/*")]).
+    (render (S2B "GET /r/1 HTTP/1.1") [(S2B "Host", S2B "h"); (S2B "x-csrf-TOKEN", S2B "secret"); (S2B "Accept", S2B "*/*")])
+    true.
